@@ -118,3 +118,84 @@ Definition spareb (st : fstate) (a s : N) : bool :=
   | None => false
   end
   && forallb (λ e, (e.1 <? view_ver (f_db st) s) || forallb (λ ra, negb (ra.2 =? a)) (map_to_list e.2)) (hist_of (f_hist st) s).
+
+(** the decidable conjuncts of FleetMendProofs.Mend and FleetMendAProofs.MendA (everything but LoopInv).
+    [okreqb a q]: a request waiting for NodeHost a is harmless (as in Calm), a join-CREATE for a current member whose
+    address is a, or a restore request for a removed member where no current member of the shard lives on a. *)
+Definition okreqb (st : fstate) (a : N) (q : request) : bool :=
+  let cur := cur_members (hist_of (f_hist st) (q_shard q)) in
+  (is_restore q && negb (q_join q) && is_member cur (q_inst q))
+  || (is_change q && negb (q_ccid q =? cur_version (hist_of (f_hist st) (q_shard q)))
+      && negb (bool_decide (q_members q = [])) && (negb (is_add q) || negb (bool_decide (q_addrs q = []))))
+  || (is_kill q && match q_members q with [y] => negb (is_member cur y) | _ => false end)
+  || (is_create q && q_join q && negb (q_restore q) && bool_decide (cur !! q_inst q = Some a))
+  || (is_restore q && negb (q_join q) && bool_decide (is_Some (f_hist st !! q_shard q)) && negb (is_member cur (q_inst q))
+      && forallb (λ ra : N * N, negb (ra.2 =? a)) (map_to_list cur)
+      && negb (q_shard q =? 0) && negb (q_inst q =? 0) && negb (a =? 0)).
+
+Definition stampedb (d : db) (s rid : N) : bool :=
+  match d_view d !! s with
+  | Some c => match s_reps c !! rid with Some n => negb (r_tick n =? 0) | None => false end
+  | None => false
+  end.
+
+(* the member table of shard s: non-zero ids and addresses, the NodeHost exists, a member that has reported has its data *)
+Definition members_okb (st : fstate) (s : N) (h : list hentry) : bool :=
+  forallb (λ ra, negb (ra.1 =? 0) && negb (ra.2 =? 0) &&
+                 match f_hosts st !! ra.2 with
+                 | Some fh => negb (stampedb (f_db st) s ra.1) || bool_decide (is_Some (fh_reps fh !! (s, ra.1)))
+                 | None => false
+                 end) (map_to_list (cur_members h)).
+
+(* the history ends with an ADD or a DELETE of x that the view does not show; every record of the view has reported;
+   an added x runs nowhere; some running replica knows the new version *)
+Definition runs_nowhere (st : fstate) (s x : N) : bool :=
+  forallb (λ ah, match fh_reps ah.2 !! (s, x) with Some lr => negb (lr_running lr) | None => true end) (map_to_list (f_hosts st)).
+Definition behindb (st : fstate) (s : N) (h : list hentry) (c : shard) : bool :=
+  match h with
+  | e1 :: e0 :: _ =>
+    (e1.1 =? e0.1 + 1) && (s_cci c =? e0.1)
+    && (existsb (λ xt, negb (is_member e0.2 xt.1) && bool_decide (e1.2 = <[xt.1 := xt.2]> e0.2) && runs_nowhere st s xt.1)
+                (map_to_list e1.2)
+        || existsb (λ xt, bool_decide (e1.2 = delete xt.1 e0.2)) (map_to_list e0.2))
+    && forallb (λ rn, negb (r_tick rn.2 =? 0)) (map_to_list (s_reps c))
+    && existsb (λ ah, existsb (λ kl, (kl.1.1 =? s) && lr_running kl.2 && (lr_ver kl.2 =? e1.1)) (map_to_list (fh_reps ah.2)))
+               (map_to_list (f_hosts st))
+  | _ => false
+  end.
+
+(* a running replica of a removed member: it knows less than the current membership version, no current member of the
+   shard lives on its NodeHost *)
+Definition strayokb (st : fstate) (a s rid : N) (lr : lrep) : bool :=
+  let h := hist_of (f_hist st) s in
+  bool_decide (is_Some (f_hist st !! s)) && (lr_ver lr <? cur_version h)
+  && forallb (λ ra : N * N, negb (ra.2 =? a)) (map_to_list (cur_members h))
+  && negb (s =? 0) && negb (rid =? 0) && negb (a =? 0).
+
+Definition mend_gen_restb (allow_behind : bool) (st : fstate) : bool :=
+  let d := f_db st in
+  time_okb d && (0 <? d_tick d)
+  && forallb (λ kv, bool_decide (is_Some (f_hist st !! kv.1)) && negb (bool_decide (sd_members kv.2 = []))
+                    && negb (sd_app kv.2 =? 0)) (map_to_list (d_shards d))
+  && forallb (λ kv, bool_decide (is_Some (d_shards d !! kv.1)) && bool_decide (is_Some (f_hist st !! kv.1)))
+             (map_to_list (d_view d))
+  && forallb (λ ah, fh_up ah.2 && bool_decide (fh_out ah.2 = None)) (map_to_list (f_hosts st))
+  && forallb (λ k, negb (k_shard k =? 0) && negb (k_replica k =? 0) && negb (k_addr k =? 0)) (d_kill d)
+  && forallb (λ aq, forallb (okreqb st aq.1) aq.2) (map_to_list (d_requests d))
+  && forallb (λ aq, forallb (okreqb st aq.1) aq.2) (map_to_list (d_outgoing d))
+  && forallb (λ ah, forallb (okreqb st ah.1) (fh_queue ah.2)) (map_to_list (f_hosts st))
+  && forallb (λ kv, match d_view d !! kv.1 with
+                    | Some c => ((s_cci c =? cur_version kv.2) || (allow_behind && behindb st kv.1 kv.2 c)) && members_okb st kv.1 kv.2
+                    | None => false
+                    end) (map_to_list (f_hist st))
+  && forallb (λ kv, forallb (λ rn, negb (r_tick rn.2 =? 0) || negb (r_first rn.2 =? 0)) (map_to_list (s_reps kv.2))
+                    && bool_decide (length (filter (λ rn : N * replica, r_tick rn.2 = 0%N) (map_to_list (s_reps kv.2))) ≤ 1)%nat)
+             (map_to_list (d_view d))
+  && forallb (λ ah, forallb (λ kl, match cur_members (hist_of (f_hist st) kl.1.1) !! kl.1.2 with
+                                   | Some a' => a' =? ah.1
+                                   | None => negb (lr_running kl.2) || strayokb st ah.1 kl.1.1 kl.1.2 kl.2
+                                   end) (map_to_list (fh_reps ah.2)))
+             (map_to_list (f_hosts st)).
+
+Definition mend_restb : fstate → bool := mend_gen_restb false.
+Definition menda_restb : fstate → bool := mend_gen_restb true.
